@@ -10,6 +10,8 @@ C02.d plan / executor agreement per PackToDo variant (frozen table): what prune_
   decision (index section, time stamp, removal) and which decisions release a pack's blobs from the used set in
   check_existing_packs; the planner's steps run in the order count -> check -> decide -> check_existing -> filter.
 C02.e R-ORDER 13/14 (shared with C03).
+C02.f used-blob bookkeeping: check_existing_packs strikes blobs off the still-needed set exactly for packs that stay
+  available unmarked (to_do = Keep / Recover), decided per PackToDo variant.
 """
 import re
 from rules.common import *
